@@ -1,0 +1,400 @@
+//! Verification hooks for the per-connection / unit level metrics of the BMP
+//! unit (feature `verif-hooks`, off by default). Add-only; a child module of
+//! `unit.rs` because `BmpTcpInRunner`, its `run` accept loop and the
+//! `ConfigAcceptor` trait are private to that module.
+//!
+//! `World` builds a `BmpTcpInRunner` with the same constructor calls as
+//! `BmpTcpIn::run` and runs the real accept loop (`BmpTcpInRunner::run`) on
+//! an in-memory listener. Every accepted connection is handled by the real
+//! `RouterHandler::read_from_router` (what `RouterHandler::run` calls after
+//! splitting the TCP stream) on an in-memory reader that is fed whole chunks
+//! by the harness and tells it when the handler is waiting for more input,
+//! i.e. when everything sent so far has been processed (a quiescent point).
+//! No behaviour of rotonda is re-implemented here.
+use std::collections::{HashMap, VecDeque};
+use std::pin::Pin;
+use std::sync::atomic::{AtomicBool, Ordering::SeqCst};
+use std::sync::Mutex as StdMutex;
+use std::task::{Context, Poll, Waker};
+
+use tokio::io::{AsyncRead, ReadBuf};
+use tokio::sync::mpsc;
+
+use super::*;
+use crate::comms::{
+    AnyDirectUpdate, DirectUpdate, GateAgent, GateMetrics, Link,
+};
+use crate::payload::Update;
+
+//------------ in-memory connection ------------------------------------------
+
+pub enum Item {
+    /// bytes delivered in one or more reads
+    Data(Vec<u8>),
+    /// one `poll_read` returns this error
+    Fault(std::io::ErrorKind),
+    /// end of input, for good
+    Eof,
+}
+
+#[derive(Default)]
+pub struct ConnShared {
+    queue: StdMutex<VecDeque<Item>>,
+    waker: StdMutex<Option<Waker>>,
+    /// the handler polled for input and nothing was queued
+    idle: AtomicBool,
+    /// the task that handled the connection has ended
+    done: AtomicBool,
+    notify: tokio::sync::Notify,
+}
+
+/// The harness' end of one connection.
+#[derive(Clone)]
+pub struct Conn {
+    shared: Arc<ConnShared>,
+    pub addr: SocketAddr,
+}
+
+impl Conn {
+    pub fn push(&self, item: Item) {
+        self.shared.idle.store(false, SeqCst);
+        self.shared.queue.lock().unwrap().push_back(item);
+        if let Some(w) = self.shared.waker.lock().unwrap().take() {
+            w.wake();
+        }
+    }
+
+    pub fn is_done(&self) -> bool {
+        self.shared.done.load(SeqCst)
+    }
+
+    /// Returns when everything pushed so far has been consumed and the
+    /// handler is waiting for more input (`false`), or when the task that
+    /// handles the connection has ended (`true`).
+    pub async fn settled(&self) -> bool {
+        loop {
+            if self.shared.done.load(SeqCst) {
+                return true;
+            }
+            if self.shared.idle.load(SeqCst) {
+                return false;
+            }
+            self.shared.notify.notified().await;
+        }
+    }
+}
+
+struct ChanReader {
+    shared: Arc<ConnShared>,
+    off: usize,
+}
+
+impl AsyncRead for ChanReader {
+    fn poll_read(
+        self: Pin<&mut Self>,
+        cx: &mut Context<'_>,
+        buf: &mut ReadBuf<'_>,
+    ) -> Poll<std::io::Result<()>> {
+        let me = self.get_mut();
+        let mut q = me.shared.queue.lock().unwrap();
+        loop {
+            match q.front() {
+                None => {
+                    *me.shared.waker.lock().unwrap() =
+                        Some(cx.waker().clone());
+                    me.shared.idle.store(true, SeqCst);
+                    me.shared.notify.notify_one();
+                    return Poll::Pending;
+                }
+                Some(Item::Data(d)) if me.off >= d.len() => {
+                    q.pop_front();
+                    me.off = 0;
+                }
+                Some(Item::Data(d)) => {
+                    let n = buf.remaining().min(d.len() - me.off);
+                    buf.put_slice(&d[me.off..me.off + n]);
+                    me.off += n;
+                    return Poll::Ready(Ok(()));
+                }
+                Some(Item::Fault(kind)) => {
+                    let kind = *kind;
+                    q.pop_front();
+                    return Poll::Ready(Err(kind.into()));
+                }
+                Some(Item::Eof) => return Poll::Ready(Ok(())),
+            }
+        }
+    }
+}
+
+//------------ in-memory listener ---------------------------------------------
+
+thread_local! {
+    /// Readers of connections handed to the accept loop but not yet to the
+    /// acceptor. The acceptor receives an opaque `impl TcpStreamWrapper`, so
+    /// the reader travels here, keyed by the connection's remote address.
+    /// Thread local: use a current-thread runtime.
+    static PENDING: std::cell::RefCell<HashMap<SocketAddr, ChanReader>> =
+        std::cell::RefCell::new(HashMap::new());
+}
+
+pub struct ChanStream;
+
+impl TcpStreamWrapper for ChanStream {
+    fn into_inner(self) -> std::io::Result<tokio::net::TcpStream> {
+        Err(std::io::ErrorKind::Unsupported.into())
+    }
+}
+
+type AcceptRx = Arc<Mutex<mpsc::UnboundedReceiver<SocketAddr>>>;
+
+struct ChanListenerFactory(AcceptRx);
+struct ChanListener(AcceptRx);
+
+#[async_trait::async_trait]
+impl TcpListenerFactory<ChanListener> for ChanListenerFactory {
+    async fn bind(&self, _addr: String) -> std::io::Result<ChanListener> {
+        Ok(ChanListener(self.0.clone()))
+    }
+}
+
+#[async_trait::async_trait]
+impl TcpListener<ChanStream> for ChanListener {
+    async fn accept(&self) -> std::io::Result<(ChanStream, SocketAddr)> {
+        match self.0.lock().await.recv().await {
+            Some(addr) => Ok((ChanStream, addr)),
+            None => std::future::pending().await,
+        }
+    }
+}
+
+/// `BmpTcpInRunner::accept_config` with `RouterHandler::run` (= split the TCP
+/// stream, `read_from_router` on the read half) replaced by
+/// `read_from_router` on the in-memory reader.
+struct ChanAcceptor;
+
+impl ConfigAcceptor for ChanAcceptor {
+    fn accept_config(
+        child_name: String,
+        router_handler: RouterHandler,
+        _tcp_stream: impl TcpStreamWrapper,
+        client_addr: SocketAddr,
+        ingress_id: IngressId,
+        router_states: &Arc<
+            FrimMap<IngressId, Arc<tokio::sync::Mutex<Option<BmpState>>>>,
+        >,
+        router_info: &Arc<FrimMap<IngressId, Arc<RouterInfo>>>,
+        ingress_register: Arc<ingress::Register>,
+    ) {
+        let router_states = router_states.clone();
+        let router_info = router_info.clone();
+        let reader = PENDING
+            .with(|p| p.borrow_mut().remove(&client_addr))
+            .expect("verif: no pending reader for this address");
+        let shared = reader.shared.clone();
+
+        crate::tokio::spawn(&child_name, async move {
+            super::super::router_handler::verif_hooks::read_from_router(
+                &router_handler,
+                reader,
+                client_addr,
+                ingress_id,
+                ingress_register,
+            )
+            .await;
+            router_states.remove(&ingress_id);
+            router_info.remove(&ingress_id);
+            shared.done.store(true, SeqCst);
+            shared.notify.notify_one();
+        });
+    }
+}
+
+//------------ downstream ----------------------------------------------------
+
+/// A downstream that counts and keeps the kinds of the updates it receives.
+#[derive(Debug, Default)]
+pub struct Sink {
+    pub updates: StdMutex<Vec<Update>>,
+}
+
+#[async_trait::async_trait]
+impl DirectUpdate for Sink {
+    async fn direct_update(&self, update: Update) {
+        self.updates.lock().unwrap().push(update);
+    }
+}
+impl AnyDirectUpdate for Sink {}
+
+//------------ World ---------------------------------------------------------
+
+pub struct World {
+    pub bmp_in_metrics: Arc<BmpTcpInMetrics>,
+    pub bmp_metrics: Arc<BmpStateMachineMetrics>,
+    pub gate_metrics: Arc<GateMetrics>,
+    pub register: Arc<ingress::Register>,
+    pub tracer: Arc<Tracer>,
+    pub agent: GateAgent,
+    pub link: Option<Link>,
+    pub sink: Arc<Sink>,
+    pub gate_id: uuid::Uuid,
+    accept_tx: mpsc::UnboundedSender<SocketAddr>,
+    pub runner: tokio::task::JoinHandle<Result<(), Terminated>>,
+}
+
+impl World {
+    /// Must be called inside a current-thread tokio runtime. `linked`: a
+    /// downstream (direct update) link is connected to the unit's gate.
+    pub async fn new(
+        linked: bool,
+        router_id_template: Option<String>,
+        tracing_mode: TracingMode,
+    ) -> World {
+        let (gate, mut agent) = Gate::new(0);
+        let gate_id = gate.id();
+        let sink = Arc::new(Sink::default());
+        let register = Arc::new(ingress::Register::new());
+        let tracer = Arc::new(Tracer::new());
+
+        // as BmpTcpIn::run
+        let bmp_in_metrics = Arc::new(BmpTcpInMetrics::new(&gate));
+        let bmp_metrics = Arc::new(BmpStateMachineMetrics::new());
+        let state_machine_metrics = Arc::new(TokioTaskMetrics::new());
+        let status_reporter = Arc::new(BmpTcpInStatusReporter::new(
+            "bmp-in",
+            bmp_in_metrics.clone(),
+        ));
+        let router_states = Arc::new(FrimMap::default());
+        let router_id_template = Arc::new(ArcSwap::from_pointee(
+            router_id_template
+                .unwrap_or_else(BmpTcpIn::default_router_id_template),
+        ));
+        let filter_name = Arc::new(ArcSwap::from_pointee(Default::default()));
+        let router_info = Arc::new(FrimMap::default());
+        let component = Arc::new(RwLock::new(
+            crate::manager::verif_hooks_c17::component(
+                "bmp-in",
+                "bmp-tcp-in",
+                register.clone(),
+            ),
+        ));
+        let tracing_mode = Arc::new(ArcSwap::from_pointee(tracing_mode));
+        let gate_metrics = gate.metrics();
+
+        let runner = BmpTcpInRunner::new(
+            component,
+            Arc::new("127.0.0.1:11019".parse().unwrap()),
+            BmpTcpIn::default_http_api_path(),
+            gate,
+            router_states,
+            router_info,
+            bmp_metrics.clone(),
+            bmp_in_metrics.clone(),
+            state_machine_metrics,
+            status_reporter,
+            None,
+            router_id_template,
+            filter_name,
+            tracer.clone(),
+            tracing_mode,
+            register.clone(),
+        );
+
+        let (accept_tx, accept_rx) = mpsc::unbounded_channel();
+        let factory =
+            Arc::new(ChanListenerFactory(Arc::new(Mutex::new(accept_rx))));
+        let runner = tokio::task::spawn(
+            runner.run::<_, _, ChanStream, ChanAcceptor>(factory),
+        );
+
+        let link = if linked {
+            let mut link = agent.create_link();
+            link.set_direct_update_target(sink.clone());
+            let _ = link.connect(false).await;
+            Some(link)
+        } else {
+            None
+        };
+
+        World {
+            bmp_in_metrics,
+            bmp_metrics,
+            gate_metrics,
+            register,
+            tracer,
+            agent,
+            link,
+            sink,
+            gate_id,
+            accept_tx,
+            runner,
+        }
+    }
+
+    /// A router connects from `addr` (unique per connection). Returns once
+    /// the accept loop has accepted it and its handler waits for input.
+    pub async fn connect(&self, addr: SocketAddr) -> Conn {
+        let shared = Arc::new(ConnShared::default());
+        PENDING.with(|p| {
+            p.borrow_mut().insert(
+                addr,
+                ChanReader {
+                    shared: shared.clone(),
+                    off: 0,
+                },
+            )
+        });
+        let conn = Conn { shared, addr };
+        let _ = self.accept_tx.send(addr);
+        conn.settled().await;
+        conn
+    }
+
+    /// The unit's metrics (`BmpTcpInMetrics`, which include the gate's, and
+    /// the state machine metrics) in the Prometheus text format, rendered by
+    /// the real `Source::append` / `Target`.
+    pub fn metrics_text(&self) -> String {
+        use crate::metrics::{OutputFormat, Source, Target};
+        let mut target = Target::new(OutputFormat::Prometheus);
+        self.bmp_in_metrics.append("bmp-in", &mut target);
+        self.bmp_metrics.append("bmp-in", &mut target);
+        target.into_string()
+    }
+
+    /// `GraphStatus::status_text` / `okay` of the unit's metrics (what the
+    /// `/status/graph` page shows); `None` when `status_text` panics.
+    pub fn graph_status(&self) -> (Option<String>, Option<bool>) {
+        use crate::comms::GraphStatus;
+        let m = self.bmp_in_metrics.clone();
+        let text = std::panic::catch_unwind(std::panic::AssertUnwindSafe(
+            || m.status_text(),
+        ))
+        .ok();
+        let m = self.bmp_in_metrics.clone();
+        let okay = std::panic::catch_unwind(std::panic::AssertUnwindSafe(
+            || m.okay(),
+        ))
+        .unwrap_or(None);
+        (text, okay)
+    }
+
+    /// The ingress id the accept loop gave the router connecting from `ip`
+    /// (an entry with that remote address whose parent is a top level entry).
+    pub fn router_ingress_id(&self, ip: std::net::IpAddr) -> Option<IngressId> {
+        (0..4096u32).find(|id| {
+            self.register.get(*id).is_some_and(|info| {
+                info.remote_addr == Some(ip)
+                    && info.remote_asn.is_none()
+                    && info.parent_ingress.is_some_and(|p| {
+                        self.register
+                            .get(p)
+                            .is_none_or(|pi| pi.parent_ingress.is_none())
+                    })
+            })
+        })
+    }
+
+    pub fn num_sunk_updates(&self) -> usize {
+        self.sink.updates.lock().unwrap().len()
+    }
+}
